@@ -143,7 +143,31 @@ const mkUnion = (ms) => {
 
 // does every value of A belong to B?  Only for operand types where TypeScript assignability is value
 // inclusion; any DONTCARE makes the question unsupported.
-const SUBSET_OK = new Set(["prim", "lit", "union", "array", "tuple", "object", "ref", "enumMember"]);
+const SUBSET_OK = new Set(["prim", "lit", "union", "array", "tuple", "object", "ref", "enumMember", "tpl"]);
+// a template literal operand is only compared with types that hold no particular strings (the finite sample of
+// its members then decides by kind alone)
+function mentions(prog, t, pred, fuel = 8) {
+  if (fuel <= 0 || !t || typeof t !== "object") return false;
+  if (pred(t)) return true;
+  switch (t.k) {
+    case "union":
+    case "inter":
+      return t.m.some((x) => mentions(prog, x, pred, fuel - 1));
+    case "array":
+      return mentions(prog, t.e, pred, fuel - 1);
+    case "tuple":
+      return t.items.some((x) => mentions(prog, x, pred, fuel - 1)) || (t.rest ? mentions(prog, t.rest, pred, fuel - 1) : false);
+    case "object":
+      return t.props.some((p) => mentions(prog, p.t, pred, fuel - 1));
+    case "ref": {
+      const d = prog.get(t.name);
+      if (d.kind === "enum") return d.members.some((m) => typeof m.v === "string");
+      return mentions(prog, norm(prog, prog.unfold(t)), pred, fuel - 1);
+    }
+    default:
+      return false;
+  }
+}
 function checkSubsetOperand(prog, t, fuel = 8) {
   if (fuel <= 0) unsupported("subset operand too deep");
   if (!SUBSET_OK.has(t.k)) unsupported("subset operand kind " + t.k);
@@ -177,6 +201,9 @@ function checkSubsetOperand(prog, t, fuel = 8) {
 export function isSubset(prog, A, B) {
   checkSubsetOperand(prog, A);
   checkSubsetOperand(prog, B);
+  const isTpl = (t) => t.k === "tpl";
+  const particularString = (t) => t.k === "tpl" || t.k === "fmtS" || (t.k === "lit" && typeof t.v === "string") || (t.k === "enumMember");
+  if ((mentions(prog, A, isTpl) && mentions(prog, B, particularString)) || (mentions(prog, B, isTpl) && mentions(prog, A, particularString))) unsupported("subset: template literal against particular strings");
   const vals = [...pool(), ...members(prog, A, 4)];
   let sawMember = false;
   for (const vx of vals) {
